@@ -701,7 +701,7 @@ impl Prop for C18 {
         "fault_enumeration"
     }
     fn rule(&self) -> String {
-        "fault enumeration: for each generated workspace (see C05; failing series so that rejects are written, --backup always so that backups are written, 1..4 threads) a counting run lists the n output operations of the push through the cfg-guarded hook (unlink, mkdir, create, chmod, write of modified files; reject create/write; backup files; .pc mkdir, applied-patches open/write); then EVERY k in 1..n is failed in turn on a fresh copy (exhaustive per workspace). Additionally kernel-level faults: RLIMIT_FSIZE set to fractions of the largest output with SIGXFSZ ignored, so that write(2) itself fails on the larger outputs. Oracle: exit status 1 (never 0, never a crash); stderr names the file of the failed operation (last path component; 'applied patches' for that file); .pc/applied-patches gains nothing unless the fault hit the applied-patches file itself, and then only names of patches whose files are all written. non-trivial = n >= 3 and the failed operation is not the first; distinct = distinct (workspace, failed operation kind+path+ordinal)".into()
+        "fault enumeration: for each generated workspace (see C05; failing series so that rejects are written, --backup always so that backups are written, 1..4 threads) a counting run lists the n output operations of the push through the cfg-guarded hook (unlink, mkdir, create, chmod, write of modified files; reject create/write; backup files; .pc mkdir, applied-patches open/write); then EVERY k in 1..n is failed in turn on a fresh copy (exhaustive per workspace). Additionally kernel-level faults: RLIMIT_FSIZE set to fractions of the largest output with SIGXFSZ ignored, so that write(2) itself fails on the larger outputs; permission faults as an unprivileged user (unlink in a read-only directory; rmdir of a directory the push empties below a read-only parent); obstacles of the wrong type at .pc, a backup directory, a reject path. Oracle: exit status 1 (never 0, never a crash); stderr names the file of the failed operation (last path component; 'applied patches' for that file); .pc/applied-patches gains nothing unless the fault hit the applied-patches file itself, and then only names of patches whose files are all written. non-trivial = n >= 3 and the failed operation is not the first; distinct = distinct (workspace, failed operation kind+path+ordinal)".into()
     }
     fn assumptions(&self) -> Vec<String> {
         vec![
